@@ -329,6 +329,8 @@ fn accumulation_pass(thorough: bool) -> (u64, u64, Vec<Violation>) {
                                 let _ = s.apply(&Ev::Break);
                             }
                             let first: Vec<String> = s.it.verif_snapshot().loops.iter().map(|l| l.symbol.clone()).collect();
+                            // a loop opened at the prompt in between is forgotten by RUN like the rest
+                            let _ = s.apply(&Ev::Line("FOR Q9=1 TO 2".into()));
                             let mut none = std::iter::empty();
                             s.recs.clear();
                             let end2 = s.run_line("RUN", &mut none, 1000);
